@@ -126,9 +126,65 @@ def spec_crosscheck(ctx):
     return dis
 
 
+def run_corpus(ctx):
+    """corpus/C10/*.json first: past disagreement / finding / mutation witnesses, model vs real code in lock-step
+    (and the property monitor for the Burst2Beat traces)."""
+    import os, glob, json
+    from explore import impl_step, _masked_equal
+    dis = []
+    n = 0
+    for path in sorted(glob.glob(os.path.join(os.path.dirname(os.path.dirname(os.path.dirname(
+            os.path.abspath(__file__)))), "corpus", "C10", "*.json"))):
+        w = json.load(open(path))
+        tag = "corpus/" + os.path.basename(path)
+        if w["kind"] == "b2b-trace":
+            inst = B2BInst(tag, aw=w["aw"], caps=tuple(w["caps"]))
+            mon = inst.monitor()
+            trace = [tuple(l) for l in w["trace"]]
+            outs = []
+            monmsg = None
+            for t, letter in enumerate(trace):
+                o = impl_step(inst, letter)
+                outs.append(o)
+                m = mon.observe(letter, o)
+                if m and monmsg is None:
+                    monmsg = (t, m)
+            ctx.lean.open(inst.lean_open)
+            mouts = ctx.lean.run(trace)
+            ctx.lean.close_session()
+            for t in range(len(trace)):
+                if not _masked_equal(inst, outs[t], mouts[t]):
+                    d = Disagreement(None, trace[:t + 1], t, outs[t], mouts[t])
+                    d.inst_name, d.lean_open = tag, inst.lean_open
+                    dis.append(d)
+                    break
+            if monmsg:
+                d = Disagreement(None, trace[:monmsg[0] + 1], monmsg[0], outs[monmsg[0]], None, kind="monitor:" + monmsg[1])
+                d.inst_name, d.lean_open = tag, inst.lean_open
+                dis.append(d)
+            n += len(trace)
+        elif w["kind"] == "conv-arith":
+            for (kind, a, b, req) in w["cases"]:
+                ca = ConvArith(kind, a, b)
+                want = tuple(int(x) for x in ctx.lean.call_batch([ca.lean_line(tuple(req))])[0].split())
+                for ch in ("aw", "ar"):
+                    got = ca.impl(tuple(req), ch)
+                    if got != want:
+                        dis.append({"instance": tag + ":" + ca.name, "kind": "conv-arith", "channel": ch,
+                                    "request": list(req), "impl": list(got), "model": list(want)})
+                    m = ca.oracle(tuple(req), got)
+                    if m:
+                        dis.append({"instance": ca.name, "kind": "monitor:" + m, "channel": ch, "request": list(req),
+                                    "forwarded": list(got), "monitor": m})
+                    n += 1
+    ctx.cov.add_cases("corpus/C10 (witness traces and requests)", n, n)
+    return dis
+
+
 def correspond(ctx):
     ctx.jobs = jobs(ctx.tier)
-    dis = list(run_jobs(ctx, ctx.jobs)) + spec_crosscheck(ctx)
+    dis = run_corpus(ctx)
+    dis += list(run_jobs(ctx, ctx.jobs)) + spec_crosscheck(ctx)
     ctx.cov.notes.append("mode A on AXIBurst2Beat uses a state-dependent alphabet: all requests of the box are offered "
                          "in the clean idle state, only beat.ready varies while the master holds a request; idle states "
                          "with a stale offset (reachable only after an illegal burst) get a reduced request alphabet")
